@@ -24,6 +24,7 @@ type Profile struct {
 	Multiplatform          bool
 	Tests                  bool // names ending in "test", testonly tags
 	UserTags               bool
+	Platforms              bool // platform selectors on some targets
 	SleepMs                int // max per-target latency
 	EdgeProb               int // percent
 }
@@ -150,6 +151,9 @@ func Gen(r *rng.R, pf Profile) *Spec {
 			if r.Chance(1, 2) {
 				t.Fingerprint["w"] = r.Word(1, 4)
 			}
+		}
+		if pf.Platforms && r.Chance(1, 4) {
+			t.Platforms = rng.Pick(r, [][]string{{"linux/amd64"}, {"darwin/arm64"}, {"linux/amd64", "darwin/arm64"}, {"windows/amd64"}})
 		}
 		if pf.SleepMs > 0 {
 			t.SleepMs = r.Intn(pf.SleepMs + 1)
